@@ -1645,7 +1645,10 @@ def ew(f, *args):
         return f(*[_unwrap0(x) if isinstance(x, (SymArray, np.ndarray)) else x for x in args])
     objs = [_obj(x) for x in args]
     bs = np.broadcast_arrays(*objs, subok=False)
-    out = np.empty(bs[0].shape, dtype=object)
+    shape = bs[0].shape
+    full = [o for o in objs if o.shape == shape] if len(shape) > 1 else []
+    order = "F" if full and all(o.flags.f_contiguous and not o.flags.c_contiguous for o in full) else "C"     # ufunc order="K"
+    out = np.empty(shape, dtype=object, order=order)
     for idx in np.ndindex(*out.shape):
         out[idx] = f(*[b[idx] for b in bs])
     return SymArray(out)
@@ -1704,8 +1707,8 @@ class SymArray:
     def __copy__(self):
         return SymArray(self.a.copy())
 
-    def copy(self):
-        return SymArray(self.a.copy())
+    def copy(self, order="C"):
+        return SymArray(self.a.copy(order=order))
 
     def __bool__(self):
         if self.a.size != 1:
@@ -1726,14 +1729,19 @@ class SymArray:
     def item(self, *args):
         return self.a.item(*args)
 
-    def flatten(self):
-        return SymArray(self.a.flatten())
+    # memory layout is NumPy's own: the object array underneath is C- or F-ordered exactly as a float array would be, so
+    # ravel() being a view or a copy, order="K"/"F"/"A" and reshape() behave as they do on real data
+    def flatten(self, order="C"):
+        return SymArray(self.a.flatten(order=order))
 
-    def ravel(self):
-        return SymArray(self.a.ravel())
+    def ravel(self, order="C"):
+        return SymArray(self.a.ravel(order=order))
 
-    def reshape(self, *shape):
-        return SymArray(self.a.reshape(*shape))
+    def reshape(self, *shape, order="C"):
+        return SymArray(self.a.reshape(*shape, order=order))
+
+    flags = property(lambda s: s.a.flags)
+    strides = property(lambda s: s.a.strides)
 
     def tolist(self):
         return self.a.tolist()
@@ -1991,6 +1999,27 @@ def _trunc_int(v):
         return RFloat(z3.If(ZB(v.fin()), t, z3.RealVal(-(2 ** 63))))
     f = v.f
     return FFloat(z3.If(z3.Or(z3.fpIsNaN(f), z3.fpIsInf(f)), fv(-float(2 ** 63)), z3.fpRoundToIntegral(z3.RTZ(), f)))
+
+
+def _np_nonzero(a):
+    """indices of the non-zero elements: their number is not symbolic, so the path forks on every element (small arrays only)"""
+    o = _obj(a)
+    if o.size > 16:
+        raise Unsupported("nonzero of a symbolic array with more than 16 elements")
+    hits = [idx for idx in np.ndindex(*o.shape) if bool(_truth(o[idx]))]
+    return tuple(np.array([h[k] for h in hits], dtype=np.intp) for k in range(o.ndim))
+
+
+def _truth(e):
+    if isinstance(e, SymBool):
+        return e
+    if isinstance(e, (SymFloat, SymInt)):
+        return e != 0
+    return bool(e)
+
+
+def _np_flatnonzero(a):
+    return _np_nonzero(SymArray(_obj(a).ravel()) if not isinstance(a, SymArray) else a.ravel())[0]
 
 
 def _np_full_like(x, fill_value, dtype=None, **kw):
@@ -2326,8 +2355,9 @@ TABLE = {
     "mean": _np_mean, "average": _np_mean, "prod": _np_prod, "nansum": _np_nansum, "count_nonzero": _np_count_nonzero,
     "concatenate": _np_concatenate, "stack": _np_stack, "vstack": _np_vstack, "allclose": _np_allclose, "array_equal": _np_array_equal,
     "heaviside": _lift(_np_heaviside), "copyto": _np_copyto, "reciprocal": _lift(lambda a: _div(const(1.0), tf(a))),
-    "expand_dims": lambda x, axis: SymArray(np.expand_dims(_obj(x), axis)), "reshape": lambda x, shape, **k: SymArray(_obj(x).reshape(shape)),
-    "ravel": lambda x, **k: SymArray(_obj(x).ravel()), "isneginf": _lift(lambda a: _isinf(tf(a)) & _lt(tf(a), const(0.0))),
+    "expand_dims": lambda x, axis: SymArray(np.expand_dims(_obj(x), axis)), "reshape": lambda x, shape, order="C", **k: SymArray(_obj(x).reshape(shape, order=order)),
+    "ravel": lambda x, order="C", **k: SymArray(_obj(x).ravel(order=order)), "nonzero": _np_nonzero, "flatnonzero": _np_flatnonzero,
+    "asfortranarray": lambda x, **k: SymArray(np.asfortranarray(_obj(x))), "ascontiguousarray": lambda x, **k: SymArray(np.ascontiguousarray(_obj(x))), "isneginf": _lift(lambda a: _isinf(tf(a)) & _lt(tf(a), const(0.0))),
     "isposinf": _lift(lambda a: _isinf(tf(a)) & _lt(const(0.0), tf(a))),
     "nanmean": _nan_reduce("mean"), "nanmax": _nan_reduce("max"), "nanmin": _nan_reduce("min"),
     "interp": _np_interp, "asarray": _np_asarray, "array": _np_asarray, "linspace": _np_linspace,
@@ -2344,11 +2374,17 @@ for _n in ("exp", "log", "log10", "log1p", "cos", "sin", "tan", "tanh", "sinh", 
     TABLE[_n] = _lift(_unary_uf(_n))
 
 _DROP_KW = ("out", "casting", "dtype", "order", "subok", "where", "signature")
+_KEEP_ORDER = ("ravel", "reshape")
 _KEEP_DTYPE = ("full_like",)        # the dtype decides whether an integer prototype truncates the fill value
 
 
 def _like(fill):
     def f(x, dtype=None, **kw):
+        if isinstance(x, (SymArray, np.ndarray)):
+            out = np.empty_like(_obj(x), dtype=object)       # order="K": an F-ordered prototype gives an F-ordered result
+            for idx in np.ndindex(*out.shape):
+                out[idx] = const(fill)
+            return SymArray(out)
         return ew_arr(lambda e: const(fill), x)
     return f
 
@@ -2372,7 +2408,7 @@ def dispatch(name, args, kw):
         where = kw.get("where", None)
         if where is True:
             where = None
-        kw = {k: v for k, v in kw.items() if k not in _DROP_KW or (k == "dtype" and name in _KEEP_DTYPE)}
+        kw = {k: v for k, v in kw.items() if k not in _DROP_KW or (k == "dtype" and name in _KEEP_DTYPE) or (k == "order" and name in _KEEP_ORDER)}
     if any(isinstance(a, MaskedSelection) for a in args):
         sel = next(a for a in args if isinstance(a, MaskedSelection))
         return sel.__array_ufunc__(type("U", (), {"__name__": name}), "__call__", *args)
